@@ -377,6 +377,9 @@ ChildPlan World::OnSpawn(Kernel& kk, const std::string& cmd, bool console) {
       }
       if (partial || status != 0) {
         if (partial && i > 0) break;
+        // (a dyndep file is replaced atomically or not at all: garbage in it, trusted
+        // through K11, would make every later build fail to parse it)
+        if (d && d->producer == sv.id) continue;
         content = "garbage " + std::to_string(myseq) + "\n";
       }
       std::string have;
